@@ -61,7 +61,7 @@ class _Break(Exception):
 BUILTINS: dict[str, Callable] = {
     'len': len, 'zip': lambda *a, **k: list(zip(*a)), 'list': list, 'tuple': tuple, 'range': range, 'all': all, 'any': any,
     'enumerate': lambda x: list(enumerate(x)), 'max': max, 'min': min, 'abs': abs, 'bool': bool, 'int': int, 'set': set, 'sorted': sorted,
-    'float': float,
+    'float': float, 'type': type, 'str': str,
 }
 
 
@@ -239,6 +239,8 @@ class Interp:
             return set(out) if isinstance(e, ast.SetComp) else out
         if isinstance(e, ast.Call):
             return self.call(e, env)
+        if isinstance(e, ast.JoinedStr):
+            return ''.join(str(self.ev(v.value, env)) if isinstance(v, ast.FormattedValue) else str(v.value) for v in e.values)  # type: ignore
         if isinstance(e, ast.Starred):
             raise ShapeError('starred expression outside a sequence')
         raise ShapeError(f'expression `{ast.unparse(e)[:60]}` not read')
@@ -304,6 +306,8 @@ class Interp:
                     finally:
                         self.self_obj = saved
                 raise ShapeError(f'stand-in {base.kind} has no method `{f.attr}`')
+            if isinstance(base, str) and f.attr in ('startswith', 'endswith', 'lstrip', 'rstrip', 'strip', 'lower', 'upper', 'removeprefix', 'removesuffix', 'join', 'split', 'replace'):
+                return getattr(base, f.attr)(*args, **kwargs)
             if isinstance(base, (list, dict, set, tuple)) and f.attr in ('append', 'extend', 'get', 'items', 'keys', 'values', 'add', 'copy', 'index', 'count', 'pop', 'discard', 'remove', 'update', 'setdefault'):
                 return getattr(base, f.attr)(*args, **kwargs)
             raise ShapeError(f'call `{ast.unparse(f)}` has no table reading')
